@@ -1,11 +1,15 @@
 (** Happens-before over schedules of the WalLoop LTS, for the data-race clause of C18.
 
-    Shared plain variables of the flush protocol: haveWALWriter (executor/wal.go:712; written by the
-    SyncWAL goroutine at l.722 and l.765, read by every RequestFlush at l.788) and *shutdownPending
-    (written by Shutdown at l.804, read by the loop at l.730).  Go's memory model orders two accesses
-    only through program order and synchronisation edges; here the only synchronisation objects are
-    the three channels: writeChannel (writer -> flusher), flushChannel (writer -> loop) and each
-    token channel f (loop <-> its writer, unbuffered).
+    Shared variables of the flush protocol: haveWALWriter (executor/wal.go; written by the SyncWAL
+    goroutine at its start and in its shutdown branch, read by every RequestFlush) and *shutdownPending
+    (written by Shutdown, read by the loop at the top of every iteration).  Go's memory model orders two
+    accesses only through program order and synchronisation edges.  The synchronisation objects are the
+    three channels — writeChannel (writer -> flusher), flushChannel (writer -> loop), each token channel f
+    (loop <-> its writer, unbuffered) — and, since the fix of F18 (known_findings.txt), the RWMutex
+    walFlagsMu inside which EVERY access to the two flags happens: critical sections of one mutex are
+    totally ordered, an earlier one happens-before a later one.  [edge] has that mutex edge under the
+    switch [mutexed]; with [mutexed = false] it is the relation of the code before the fix, kept to state
+    the regression (C18_race_before_fix).
 
     [hb ls i j] OVER-approximates happens-before between the labels at positions i < j of a schedule:
     program order of every goroutine, plus an edge from EVERY earlier send on a channel to EVERY later
@@ -42,25 +46,6 @@ Definition sends_on (l : label) : option chanid :=
 Definition recvs_on (l : label) : option chanid :=
   match l with LFl | InlFl _ => Some CWrite | LRecv => Some CFlush | LAckL => Some CTok | _ => None end.
 
-Definition edge (a b : label) (nw : nat) : bool :=
-  same_thread a b nw ||
-  match sends_on a, recvs_on b with Some c, Some d => chan_eqb c d | _, _ => false end.
-
-(** reach.(j) for the prefix processed so far: positions that happen-before position j *)
-Fixpoint hb_from (nw : nat) (src : label) (rest : list label) (reached : list (label * bool)) : list bool :=
-  match rest with
-  | [] => map snd reached
-  | l :: r =>
-      let r_here := edge src l nw || existsb (fun p => snd p && edge (fst p) l nw) reached in
-      hb_from nw src r (reached ++ [(l, r_here)])
-  end.
-(** hb ls i = for each j > i whether ls[i] happens-before ls[j] *)
-Definition hb_row (nw : nat) (ls : list label) (i : nat) : list bool :=
-  match skipn i ls with
-  | src :: rest => hb_from nw src rest []
-  | [] => []
-  end.
-
 Inductive acc := ARead | AWrite.
 (** accesses to haveWALWriter *)
 Definition have_access (l : label) : option acc :=
@@ -69,6 +54,29 @@ Definition have_access (l : label) : option acc :=
     select, modelled at the labels that end an iteration *)
 Definition shut_access (l : label) : option acc :=
   match l with EnvShut => Some AWrite | LShut | LAckL | LCkpt => Some ARead | _ => None end.
+(** the label contains a critical section of walFlagsMu *)
+Definition flag_access (l : label) : bool :=
+  match have_access l, shut_access l with None, None => false | _, _ => true end.
+
+Definition edge (mutexed : bool) (a b : label) (nw : nat) : bool :=
+  same_thread a b nw ||
+  match sends_on a, recvs_on b with Some c, Some d => chan_eqb c d | _, _ => false end ||
+  (mutexed && flag_access a && flag_access b).
+
+(** reach.(j) for the prefix processed so far: positions that happen-before position j *)
+Fixpoint hb_from (mx : bool) (nw : nat) (src : label) (rest : list label) (reached : list (label * bool)) : list bool :=
+  match rest with
+  | [] => map snd reached
+  | l :: r =>
+      let r_here := edge mx src l nw || existsb (fun p => snd p && edge mx (fst p) l nw) reached in
+      hb_from mx nw src r (reached ++ [(l, r_here)])
+  end.
+(** hb ls i = for each j > i whether ls[i] happens-before ls[j] *)
+Definition hb_row (mx : bool) (nw : nat) (ls : list label) (i : nat) : list bool :=
+  match skipn i ls with
+  | src :: rest => hb_from mx nw src rest []
+  | [] => []
+  end.
 
 Definition conflicting (a b : option acc) : bool :=
   match a, b with
@@ -77,10 +85,10 @@ Definition conflicting (a b : option acc) : bool :=
   end.
 
 (** pairs (i, j), i < j, of conflicting accesses by different goroutines that are not ordered *)
-Definition races (access : label -> option acc) (nw : nat) (ls : list label) : list (nat * nat) :=
+Definition races (mx : bool) (access : label -> option acc) (nw : nat) (ls : list label) : list (nat * nat) :=
   flat_map (fun i =>
     let li := nth i ls LCkpt in
-    let row := hb_row nw ls i in
+    let row := hb_row mx nw ls i in
     flat_map (fun k =>
       let j := i + 1 + k in
       let lj := nth j ls LCkpt in
